@@ -46,6 +46,18 @@ PROPERTIES = {
         "thorough": [{"match": "VerifH_c10_.*", "timeout": 3000, "shards": {"VerifH_c10_watch": 6}, "sharddepth": 8}],
         "bounds": {}, "outside": [], "assumptions": [],
     },
+    "C11": {
+        "level": "model_checking",
+        "quick": [{"match": "VerifH_c11_.*", "timeout": 900, "shards": {"VerifH_c11_blpop": 8}, "sharddepth": 8, "validate": 2}],
+        "thorough": [{"match": "VerifH_c11_.*", "timeout": 3000, "shards": {"VerifH_c11_blpop": 12}, "sharddepth": 8, "validate": 2}],
+        "bounds": {}, "outside": [], "assumptions": [],
+    },
+    "C12": {
+        "level": "model_checking",
+        "quick": [{"match": "VerifH_c12_.*", "timeout": 600, "validate": 2}],
+        "thorough": [{"match": "VerifH_c12_.*", "timeout": 1200, "validate": 2}],
+        "bounds": {}, "outside": [], "assumptions": [],
+    },
     "C13": {
         "level": "model_checking",
         "quick": [{"match": "VerifH_c13_.*", "timeout": 600, "allow_unsupported": ["ParseFloat of symbolic text"]}],
